@@ -543,6 +543,11 @@ func (r *rewriter) rewriteCall(n *ast.CallExpr) ast.Expr {
 				case "runtime.Gosched":
 					counts["gosched"]++
 					return call("Gosched")
+				case "runtime.SetFinalizer":
+					// the collector is a source of nondeterminism: inside a
+					// run finalizers are recorded, never armed for real
+					counts["finalizer"]++
+					return call("SetFinalizer", n.Args...)
 				case "time.After", "time.AfterFunc", "time.NewTimer", "time.NewTicker", "time.Tick",
 					"context.WithTimeout", "context.WithDeadline":
 					// a timer firing on the real clock would make runs
